@@ -5,7 +5,7 @@
 #endif
 namespace {
    enum Construct { KSub, KClass, KUnion, KEnum, KNamespace, KClosure, KBlock, KHandler, KMapping, KLambda, KWhere, KRequires, KMorphism, NCONSTRUCT };
-   struct Made { const ipr::Region* r; impl::Region* ir; const ipr::Region* parent; const ipr::Expr* owner; bool owner_known; unsigned depth; };
+   struct Made { const ipr::Region* r; impl::Region* ir; const ipr::Region* parent; const ipr::Expr* owner; bool owner_known; unsigned depth; impl::Block* blk = nullptr; };
    struct World {
       impl::Lexicon lx;
       impl::Translation_unit unit { lx };
@@ -34,7 +34,7 @@ extern "C" void h_region_history(void) {
       case KEnum: { auto* x = lx.make_enum(*p.r, ipr::Enum::Kind::Scoped); m.r = &static_cast<const ipr::Enum&>(*x).region(); m.owner = x; break; }
       case KNamespace: { auto* x = lx.make_namespace(*p.r); m.ir = &x->body; m.r = &static_cast<const ipr::Namespace&>(*x).region(); m.owner = x; break; }
       case KClosure: { auto* x = lx.make_closure(*p.r); m.ir = &x->body; m.r = &static_cast<const ipr::Closure&>(*x).region(); m.owner = x; break; }
-      case KBlock: { auto* x = lx.make_block(*p.r); m.ir = &x->lexical_region; m.r = &static_cast<const ipr::Block&>(*x).region(); m.owner = x; break; }
+      case KBlock: { auto* x = lx.make_block(*p.r); m.ir = &x->lexical_region; m.r = &static_cast<const ipr::Block&>(*x).region(); m.owner = x; m.blk = x; break; }
       case KHandler: {
          auto* b = lx.make_block(*p.r); auto* h = b->new_handler(nm, lx.int_type()); const ipr::Handler& ch = *h;
          const ipr::Region& body = ch.body().region(); const ipr::Region& eh = body.enclosing();
@@ -42,6 +42,8 @@ extern "C" void h_region_history(void) {
          vp_assert(&eh.enclosing() == &static_cast<const ipr::Block&>(*b).region().enclosing() && &eh.enclosing() == p.r, 2);
          vp_assert(eh.bindings().size() == 1 && &at(eh.bindings().elements(), 0) == &ch.exception(), 3);
          vp_assert(!eh.global() && !body.global(), 4);
+         { const ipr::Region& guarded = static_cast<const ipr::Block&>(*b).region();           // the guarded block still owns its region once it has a handler
+           vp_assert(guarded.owner().is_valid() && &guarded.owner().get() == b && &guarded.enclosing() == p.r, 10); }
          m.ir = &h->body().lexical_region; m.r = &body; m.parent = &eh; m.owner_known = false; m.depth = p.depth + 2; break; }
       case KMapping: { auto* x = lx.make_mapping(*p.r, Mapping_level{ 1 }); m.r = &x->parameters().region(); m.owner = x; break; }
       case KLambda: { auto* x = lx.make_lambda(*p.r, Mapping_level{ 1 }); m.r = &x->parameters().region(); m.owner = x; break; }
@@ -51,6 +53,8 @@ extern "C" void h_region_history(void) {
       }
       w->made[w->n++] = m;
    }
+   // later mutations of the constructs made so far: every block gains a handler, every region with an implementation handle a sub-region
+   if (vp_flag()) for (int i = 0; i < w->n; ++i) { if (w->made[i].blk) w->made[i].blk->new_handler(nm, lx.bool_type()); if (w->made[i].ir) w->made[i].ir->make_subregion(); }
    const ipr::Region* root = w->unit.global_region();
    for (int i = 0; i < w->n; ++i) {
       const Made& m = w->made[i];
